@@ -4,7 +4,7 @@
 # merges the profiles and prints a per-file summary; the annotated sources go to out-cov/coverage.txt.
 cd "$(dirname "$0")/.."
 set -e
-( cd harness && RUSTFLAGS="-C instrument-coverage" cargo +nightly build --release --offline --target-dir target-cov >/dev/null 2>&1 )
+( cd harness && LLVM_PROFILE_FILE=/tmp/mtv-cov-build-%p.profraw RUSTFLAGS="-C instrument-coverage" cargo +nightly build --release --offline --target-dir target-cov >/dev/null 2>&1 )
 BIN=$PWD/harness/target-cov/release/mtv
 rm -rf out-cov; mkdir -p out-cov/prof
 export LLVM_PROFILE_FILE=$PWD/out-cov/prof/%p-%m.profraw VERIF_MTV=$BIN
@@ -15,4 +15,4 @@ LLVM=$(dirname $(rustup +nightly which rustc))/../lib/rustlib/x86_64-unknown-lin
 $LLVM/llvm-profdata merge -sparse out-cov/prof/*.profraw -o out-cov/mtv.profdata
 $LLVM/llvm-cov report $BIN -instr-profile=out-cov/mtv.profdata $(ls /repo/src/*.rs /repo/src/*/*.rs) 2>/dev/null | tee out-cov/summary.txt | cut -c1-160
 $LLVM/llvm-cov show $BIN -instr-profile=out-cov/mtv.profdata $(ls /repo/src/*.rs /repo/src/*/*.rs) > out-cov/coverage.txt 2>/dev/null
-rm -rf out-cov/prof
+rm -rf out-cov/prof /tmp/mtv-cov-build-*.profraw
